@@ -446,6 +446,50 @@ func (d *protoDom) call(st *sState, call *ssa.Call, name string, args []sVal) (b
 		}
 		set(pInt{pOp("eqb", x, y)})
 		return true, nil
+	case "sm2.TestPrivateKey":
+		// called from another entry point: by its contract (decided on its own body by KEYTEST-ACCEPT / KEYTEST-REJECT):
+		// 0 exactly for keys of at most 32 bytes with 1 <= d <= n-2
+		b, ok := bytesArg(0)
+		if !ok {
+			return fail("TestPrivateKey of an unknown byte string")
+		}
+		dv, ln := pVal(b), pOp("len", b)
+		d.tpkCalls++
+		code := pInt{&pt{op: "param", s: fmt.Sprintf("keycode#%d", d.tpkCalls)}}
+		var extra []*sState
+		mk := func(facts ...pFact) {
+			c := st.clone()
+			c.vals[call] = code
+			c.addFact(pFact{a: code.t, op: token.NEQ, b: pC(0)})
+			for _, f := range facts {
+				c.addFact(f)
+			}
+			if !d.infeasible(c) {
+				extra = append(extra, c)
+			}
+		}
+		known := d.lenOf(st, b)
+		if known < 0 || known >= 33 {
+			mk(pFact{a: ln, op: token.GEQ, b: pC(33)})
+		}
+		if known >= 33 {
+			st.dead = true
+			set(code)
+			return true, extra
+		}
+		if known >= 0 {
+			ln = pC(int64(known))
+		}
+		mk(pFact{a: ln, op: token.LEQ, b: pC(32)}, pFact{a: dv, op: token.LEQ, b: pC(0)})
+		mk(pFact{a: ln, op: token.LEQ, b: pC(32)}, pFact{a: dv, op: token.GEQ, b: pAdd(pSym("N"), pC(-1))})
+		st.addFact(pFact{a: ln, op: token.LEQ, b: pC(32)})
+		st.addFact(pFact{a: dv, op: token.GEQ, b: pC(1)})
+		st.addFact(pFact{a: dv, op: token.LEQ, b: pAdd(pSym("N"), pC(-2))})
+		set(sInt{big.NewInt(0)})
+		if d.infeasible(st) {
+			st.dead = true
+		}
+		return true, extra
 	case "utils.ConstantTimeCmp":
 		x, ok1 := bytesArg(0)
 		y, ok2 := bytesArg(1)
